@@ -938,6 +938,7 @@ def emit_fn(f, udir, unit_props, recs, log_global):
     rec.properties = f.get("properties", unit_props)
     rec.contract = dict(requires=f.get("requires", []), ensures=f.get("ensures", []))
     rec.fn_name = f["name"] + ("__" + f["variant"] if f.get("variant") else "")
+    rec.carve_out_of = f.get("carve_out_of")
     rec.impl_hdr = f.get("emit_impl", f.get("impl") or "")
     log = []
     where = "%s (%s:%d)" % (rec.id, f["source"], loc["line"])
@@ -958,6 +959,9 @@ def emit_fn(f, udir, unit_props, recs, log_global):
     for r in f.get("sig_subst", []):
         sig, l = r_subst(sig, [r], where)
         log += l
+    if f.get("variant"):
+        # a second contract on the same real body (e.g. the carve-out of a known finding): same text, emitted under a suffixed name
+        sig = re.sub(r"\bfn\s+%s\b" % re.escape(f["name"]), "fn %s__%s" % (f["name"], f["variant"]), sig, count=1)
     mname = re.search(r"\bfn\s+(\w+)", sig)
     if mname and not f.get("variant"):
         rec.fn_name = mname.group(1)      # a signature substitution may have renamed the emitted function (R-inherent)
